@@ -1,3 +1,3 @@
 Require Import ExtrOcamlBasic.
-Require Import V.C08.Model.
+Require Import V.C08.Direct.
 Extraction "model.ml" run_case.
